@@ -80,10 +80,85 @@ def grid(tier: str) -> List[Dict[str, Any]]:
                 and "obj" not in q][::2]
     # the same on an IPv6-only host (queries from a link-local source): every 5th point
     pts += [dict(q, v6=True) for q in pts[::5]]
+    for j in (0.0, 0.5, 1.0):
+        for d1 in (5, 20, 60):
+            pts.append({"fam": "three-on-host", "jitter": j, "d1": d1})
     return pts
 
 
+# three services on one host name: while an answer for all of them waits under the one-second protection, one is moved to another
+# host by an update (its queued pointer keeps the shared address as an additional - rightly, the host name is still in use) and
+# the other two are unregistered one after the other: the host name goes out of use, its address records are withdrawn
+H3_A = Svc(TA, "a3._a._tcp.local.", "h1.local.", 80, b"", [bytes([10, 0, 0, 1])], [])
+H3_B = Svc(TA, "b3._a._tcp.local.", "h1.local.", 81, b"", [bytes([10, 0, 0, 1])], [])
+H3_C = Svc(TA, "c3._a._tcp.local.", "h1.local.", 82, b"", [bytes([10, 0, 0, 1])], [])
+H3_B_MOVED = Svc(TA, "b3._a._tcp.local.", "h2.local.", 81, b"", [bytes([10, 0, 0, 2])], [])
+
+
+def run_three(p: Dict[str, Any], verbose: bool = False) -> Tuple[Optional[Dict[str, Any]], str, int]:
+    problems: List[str] = []
+    with World(rand=RandPolicy.const(p["jitter"])) as w:
+        host = w.new_zeroconf()
+        peer = Peer(w)
+        infos = {n: make_info(s) for n, s in (("a", H3_A), ("b", H3_B), ("c", H3_C))}
+        for info in infos.values():
+            register(w, host, info)
+        t0 = 1_000_000.0
+        tq = t0 + U_MS
+        recs: List[tuple] = []
+        for s in (H3_A, H3_B, H3_C):
+            recs += [r for r in svc_records(s) if r not in recs]
+        peer.at(tq - 500, host, wire.response(recs))
+        peer.at(tq, host, wire.query([("Q", TA, 12, 1)]))
+        w.advance_to_ms(tq + p["d1"])
+
+        async def ops() -> None:
+            await _update(host, make_info(H3_B_MOVED))
+            await _unreg(host, infos["a"])
+            await _unreg(host, infos["c"])
+
+        task = w.spawn(ops())
+        w.advance_to_ms(tq + HORIZON_MS)
+        if not task.done():
+            problems.append("the update / unregister calls did not finish")
+        trace = decoded_trace(w, host.name, since_ms=tq)
+        withdrawn = set()
+        for s in (H3_A, H3_C):
+            for r in svc_records(s, True):
+                withdrawn.add(ident(r))
+        byes = [d for d in trace if d.is_response and d.multicast and
+                any(ttl == 0 and i == ident(H3_C.ptr()) for i, ttl in d.idents_ttl())]
+        if len(byes) != 3:
+            problems.append(f"goodbyes: {len(byes)} goodbye datagrams for the service withdrawn last, expected three")
+        else:
+            t3 = byes[2].t_ms
+            if not all(any(i == ident(a) and ttl == 0 for i, ttl in byes[2].idents_ttl()) for a in H3_C.addrs()):
+                problems.append("goodbyes: the address of the host name is not withdrawn although no service uses it any more")
+            for d in trace:
+                if d.t_ms <= t3:
+                    continue
+                for i, ttl in d.idents_ttl():
+                    if ttl > 0 and i in withdrawn:
+                        problems.append(f"resurrection: {i} transmitted with TTL {ttl} at +{d.t_ms - tq:.1f} ms, after the third "
+                                        f"goodbye (+{t3 - tq:.1f})")
+                        break
+        excs = w.exceptions()
+        if excs:
+            problems.append(f"exception in the event loop: {excs[0]}")
+        obs = digest([(round(d.t_ms - tq, 3), d.sent.dest, d.sent.data) for d in trace])
+        if verbose:
+            for d in trace:
+                print("   ", d.brief())
+    verdict = None
+    if problems:
+        verdict = {"what": f"C08 {p}: {problems[0]}", "replay": {"problems": problems[:5]},
+                   "signature": {"check": problems[0].split(":")[0]}}
+    return verdict, obs, w.loop.handles_run
+
+
 def run_point(p: Dict[str, Any], verbose: bool = False) -> Tuple[Optional[Dict[str, Any]], str, int]:
+    if p.get("fam") == "three-on-host":
+        return run_three(p, verbose)
     problems: List[str] = []
     # 'qm-burst': two queries 1 ms apart, the first draws the shortest and the second the longest delay, so the
     # aggregation queue holds two groups and keeps the first until its 500 ms deadline
